@@ -49,8 +49,8 @@ Example C11_example :
   /\ parse_many nat toy [tk ";" 0; tk "<ident>" 1; tk ";" 2; tk ";" 3; tk "<ident>" 4; tk "<eof>" 7] = ([1; 4], 0).
 Proof. vm_compute. split; reflexivity. Qed.
 
-(* ---- a family of statements for which NOTHING is left to a hypothesis: the sixteen DDL statements of Parse/StmtModel.v (DROP ... , ANALYZE,
-   CREATE SCHEMA / DATABASE), modelled whole with the recover points of parseDDL and parseStatementInternal, tied to ParseDDL, ParseStatement,
+(* ---- a family of statements for which NOTHING is left to a hypothesis: the twenty DDL statements of Parse/StmtModel.v (DROP ... , ANALYZE,
+   CREATE SCHEMA / DATABASE / ROLE, RENAME TABLE, GRANT, REVOKE -- the last three with comma-separated lists and look-ahead), modelled whole with the recover points of parseDDL and parseStatementInternal, tied to ParseDDL, ParseStatement,
    ParseDDLs and ParseStatements by the correspondence of every run.  Locality -- the one hypothesis of the list-loop theorem -- is PROVED for
    them (Parse/StmtProofs.v): whatever follows the terminator, the statement parser (accepting or recovering) returns the same node, records the
    same number of errors and stops at the same place, never beyond the terminator.  Hence, for every list whose pieces are statements of the
@@ -96,4 +96,22 @@ Example C11_family_example :
     ([DNode "DropTable"%string [FPos 0; FBool false; FPath [{| id_pos := 11; id_end := 12; id_name := bs "t"%string |}]];
       DBad false 16 22 [idz "DROP"%string 16%Z; one];
       DNode "Analyze"%string [FPos 25]]%Z, 1%nat).
+Proof. vm_compute. reflexivity. Qed.
+
+(* non-vacuity with lists and look-ahead: GRANT SELECT ( a ) , DELETE ON TABLE t TO ROLE r ; RENAME TABLE a TO b , c ; -- the second statement
+   fails inside its list and becomes a BadDDL holding its seven tokens *)
+Example C11_family_example_lists :
+  let tkz (k : string) (p : Z) (n : Z) := {| pk := bs k; praw := bs k; pstr := []; ppos := p; pend := (p + n)%Z; pbase := 0 |} in
+  let idz (s : string) (p : Z) := {| pk := bs K_ident; praw := bs s; pstr := bs s; ppos := p; pend := (p + Z.of_nat (String.length s))%Z; pbase := 0 |} in
+  let idn (s : string) (p : Z) := {| id_pos := p; id_end := (p + Z.of_nat (String.length s))%Z; id_name := bs s |} in
+  let st2 := [idz "RENAME"%string 50; idz "TABLE"%string 57; idz "a"%string 63; tkz "TO"%string 65 2; idz "b"%string 68; tkz ","%string 70 1; idz "c"%string 72]%Z in
+  let ts := ([idz "GRANT"%string 0; tkz "SELECT"%string 6 6; tkz "("%string 13 1; idz "a"%string 14; tkz ")"%string 15 1; tkz ","%string 17 1; idz "DELETE"%string 19;
+             tkz "ON"%string 26 2; idz "TABLE"%string 29; idz "t"%string 35; tkz "TO"%string 37 2; idz "ROLE"%string 40; idz "r"%string 45; tkz ";"%string 47 1]
+            ++ st2 ++ [tkz ";"%string 74 1; tkz K_eof 75 0])%Z%list in
+  parse_many dnode (spT (fun ts => (DNode "?"%string [], ts, 0)) sp_stmt) ts =
+    ([DNode "Grant"%string [FPos 0; FSub "PrivilegeOnTable"%string [FSubs [FSub "SelectPrivilege"%string [FPos 6; FPos 15; FIdents [idn "a"%string 14]];
+                                                                        FSub "DeletePrivilege"%string [FPos 19]];
+                                                                 FIdents [idn "t"%string 35]];
+                            FIdents [idn "r"%string 45]];
+      DBad false 50 73 st2]%Z, 1%nat).
 Proof. vm_compute. reflexivity. Qed.
